@@ -135,6 +135,27 @@ def fresh_issues(code, filename=None):
     return r["calls"][0]["issues"] if r.get("calls") else r
 
 
+def standalone_nondeterministic(code, filename=None):
+    """In a NEW interpreter: do two fresh-report analyses of `code` differ?  (True / False / None = could not run).
+    Tells a self-contained determinism failure from one that needs the programs analysed earlier in the run."""
+    import subprocess
+    import sys
+    prog = ("import sys, json\nsys.path.insert(0, %r)\nimport tifawrap_common as tw\n"
+            "c = json.load(sys.stdin)\n"
+            "a = tw.observe(c['code'], repeats=0, filename=c['filename'])\n"
+            "b = tw.observe(c['code'], repeats=0, filename=c['filename'])\n"
+            "print('RESULT', json.dumps(a.get('calls') != b.get('calls')))\n" % os.path.dirname(os.path.abspath(__file__)))
+    try:
+        p = subprocess.run([sys.executable, "-X", "utf8", "-W", "ignore", "-c", prog], input=json.dumps({"code": code, "filename": filename}),
+                           capture_output=True, text=True, timeout=120)
+    except Exception:
+        return None
+    for line in p.stdout.splitlines():
+        if line.startswith("RESULT "):
+            return json.loads(line[7:])
+    return None
+
+
 def nlines(code):
     """Number of lines as CPython numbers them (universal newlines: \\n, \\r\\n and lone \\r end a line;
     form feed, \\x1c-\\x1e, \\x85, U+2028/9 do not)."""
@@ -213,7 +234,13 @@ RECEIVERS = {
 }
 
 
-STD_MODULES = ("math", "random", "string", "json", "pprint", "dataclasses")
+# standard modules whose functions cannot be tried for real here (they need a display): hand-written calls
+MANUAL_MODULE_CALLS = {
+    ("turtle", "forward"): "turtle.forward(10)", ("turtle", "backward"): "turtle.backward(10)",
+    ("turtle", "color"): "turtle.color('red')", ("turtle", "right"): "turtle.right(90)",
+    ("turtle", "left"): "turtle.left(90)",
+}
+NO_REAL_TRY = ("turtle", "tkinter")
 
 
 def _try(expr_src, env=None):
@@ -247,10 +274,16 @@ def builtin_call_programs(rows):
                         src = cand
                         break
             code = None if src is None else "value = %s\nprint(value)\n" % src
+        elif table.startswith("extmodule:"):
+            out.append((table, name, None))     # third-party module: outside the property's subset
+            continue
         elif table.startswith("module:"):
             mod = table.split(":", 1)[1]
-            if mod.split(".")[0] not in STD_MODULES:
-                out.append((table, name, None))
+            if (mod, name) in MANUAL_MODULE_CALLS:
+                out.append((table, name, "import %s\nvalue = %s\nprint(value)\n" % (mod, MANUAL_MODULE_CALLS[(mod, name)])))
+                continue
+            if mod.split(".")[0] in NO_REAL_TRY:
+                out.append((table, name, "import %s\nvalue = %s.%s()\nprint(value)\n" % (mod, mod, name)))
                 continue
             if (mod, name) == ("dataclasses", "dataclass"):
                 out.append((table, name, "from dataclasses import dataclass\n@dataclass\nclass Point:\n    x: int\n"
@@ -291,6 +324,35 @@ def builtin_call_programs(rows):
             else:
                 code = "receiver = %s\nvalue = %s\nprint(value)\nprint(receiver)\n" % (code_recv, src)
         out.append((table, name, code))
+    return out
+
+
+# --------------------------------------------------------------------------------------------
+# state-leak probes: determinism across analyses.  TIFA's Type objects carry a mutable `fields` dict and
+# mutable element types; a value whose Type object is shared between analyses (a class-level dict, a builtin
+# declared once at import) lets one analysis change the next.  Each probe first READS through the value
+# (augmented assignment: an issue when the attribute/element is unknown) and then WRITES it, so a second,
+# fresh analysis of the same text sees what the first one left behind.
+
+LEAK_VALUES = [
+    "'Ada'", "''", "5", "0", "2.5", "True", "None", "1j", "[1, 2]", "[]", "(1, 2)", "()", "{'a': 1}", "{}", "{1, 2}",
+    "len('a')", "input()", "int('3')", "float('2')", "str(4)", "bool(0)", "list('ab')", "dict()", "set()", "tuple([1])",
+    "range(3)", "sorted([2, 1])", "open('data.txt')", "'a b'.split()", "'a'.upper()", "abs(-1)", "round(2.5)",
+    "max(1, 2)", "sum([1])", "enumerate([1])", "zip([1], [2])", "map(str, [1])", "print", "len", "int", "str", "list",
+    "math", "math.pi", "math.sqrt(4.0)", "random.randint(1, 2)", "json.loads('1')", "string.digits",
+    "'%d' % 3", "f'{3}'", "b'by'", "...", "1 if input() else 'a'", "[1, 'a']", "undefined_name", "lambda: 1",
+]
+
+
+def state_leak_programs():
+    out = []
+    head = "import math\nimport random\nimport json\nimport string\n"
+    for v in LEAK_VALUES:
+        out.append(head + "probe = %s\nprobe.extra += 1\nprobe.extra = 2\nprint(probe)\n" % v)
+        out.append(head + "probe = %s\nprobe.extra += 'a'\nprobe.extra = 'b'\nprint(probe.extra)\n" % v)
+        out.append(head + "probe = %s\nprobe[0] += 'a'\nprobe[0] = 'b'\nprint(probe[0] + 1)\n" % v)
+        out.append(head + "def use(thing):\n    thing.extra += 1\n    thing.extra = [1]\n    return thing\n"
+                          "print(use(%s).extra)\n" % v)
     return out
 
 
